@@ -567,3 +567,13 @@ Proof.
     eapply (IH s1 s' c (os0 ++ pass_ops s ++ os1)); [|exact H].
     rewrite H1. unfold settle. rewrite Hs. rewrite !exec_app. reflexivity.
 Qed.
+
+(* while the invoker waits for <-done after cancel(), whatever still runs of its task is the cancelled execution *)
+Lemma joining_cancelled s i v k :
+  Inv s -> nth_error (invs s) i = Some v -> ipc v = PC k ->
+  forall k' c, In (k', c) (bodies v) -> k' = k /\ c = true.
+Proof.
+  intros I Hn Hpc k' c Hin. pose proof (inv_l _ I _ _ Hn) as Hl. unfold linv in Hl. rewrite Hpc in Hl.
+  destruct Hl as [Hl|Hl]; rewrite Hl in Hin; simpl in Hin; [tauto|].
+  destruct Hin as [E|[]]. inversion E. auto.
+Qed.
